@@ -370,6 +370,16 @@ def run(ctx):
         ops = [{"op": "authorize", "client": "c1", "redirect": "https://c1.example/cb", "scope": "a", "challenge": None, "method": None, "approve": "alice"},
                {"op": "redeem", "code": 0, "cred": ["basic", "c1", "s1"], "redirect": "https://c1.example/cb", "verifier": None, "extra": extra}]
         check_seq(ctx, ops, False, "golden-code-extra")
+        # nothing was approved (no scope, or an empty one, at the authorization / device endpoint): the stray scope of the
+        # redemption or poll request is not what the token carries
+        for sc0 in (None, ""):
+            ops = [{"op": "authorize", "client": "c1", "redirect": "https://c1.example/cb", "scope": sc0, "challenge": None, "method": None, "approve": "alice"},
+                   {"op": "redeem", "code": 0, "cred": ["basic", "c1", "s1"], "redirect": "https://c1.example/cb", "verifier": None, "extra": extra}]
+            check_seq(ctx, ops, False, "golden-code-extra-unscoped")
+            ops = [{"op": "device_authorize", "cred": ["basic", "c1", "s1"], "client_param": "c1", "scope": sc0},
+                   {"op": "decide", "device": 0, "user": "alice", "approve": True},
+                   {"op": "poll", "device": 0, "cred": ["basic", "c1", "s1"], "extra": extra}]
+            check_seq(ctx, ops, True, "golden-device-extra-unscoped")
     # verifier / challenge boundary strings
     m = ctx.model
     from authlib.oauth2.rfc7636.challenge import CODE_VERIFIER_PATTERN
